@@ -17,13 +17,76 @@ def _reg_key(seq):
     return tuple((q, tuple(round(float(x), 9) for x in np.atleast_1d(np.asarray(c.as_array() if hasattr(c, "as_array") else c)))) for q, c in qs.items())
 
 
+def _str_ids(snap):
+    """Timeline and phase references with every qubit id rendered as a string
+    (the abstract representation stringifies integer ids, by documentation)."""
+    tl = tuple(
+        (n, cs.channel_id, tuple((s.kind, s.ti, s.tf, tuple(sorted(str(q) for q in s.targets)), s.pdig) for s in cs.slots), cs.eom_blocks)
+        for n, cs in sorted(snap.channels.items())
+    )
+    ph = tuple((b, tuple(sorted((str(q), val) for q, val in refs.items()))) for b, refs in sorted(snap.phase.items()))
+    return tl, ph
+
+
 class C04(Oracle):
     def begin(self, ctx, snap):
         self.n_valid = 0
 
+    def roundtrip(self, ctx, op, pre, out, post):
+        """obs_roundtrip: the restored object is a separate one (integer-id worlds)."""
+        v = []
+        kind = op["kind"]
+        dev = ctx.world["device"]
+        if pre.key() != post.key():
+            v.append(("C04/serialising-changed", f"{kind} serialisation changed the sequence: {_diff(pre, post)}"))
+        if not out.ok:
+            ctx.stats[f"roundtrip_refused/{kind}/{out.exc_type}"] += 1
+            if kind == "abstract":
+                if out.exc_type != "AbstractReprError":
+                    v.append(("C04/serialise-raised", f"abstract-repr round trip raised {out.exc_type}: {(out.exc_msg or '')[:140]}"))
+            elif dev["kind"] != "physical":
+                v.append(("C04/legacy-raised", f"legacy round trip raised {out.exc_type}: {(out.exc_msg or '')[:140]}"))
+            return v
+        r = out.value
+        rs = r["snap"]
+        if _str_ids(pre) != _str_ids(rs):
+            a, b = _str_ids(pre), _str_ids(rs)
+            what = "timeline" if a[0] != b[0] else "phase references"
+            v.append(("C04/roundtrip-differs", f"{kind} round trip (separate object): restored {what} differ: {_diff(pre, rs)}"))
+        fl = ("measured", "measure_basis", "in_xy", "in_ising", "mag_field", "parametrized", "empty")
+        d1 = {x: pre.flags[x] for x in fl}
+        d2 = {x: rs.flags[x] for x in fl}
+        if tuple(sorted(map(str, pre.flags["slm_targets"]))) != tuple(sorted(map(str, rs.flags["slm_targets"]))):
+            d1["slm_targets"], d2["slm_targets"] = pre.flags["slm_targets"], rs.flags["slm_targets"]
+        if d1 != d2:
+            v.append(("C04/roundtrip-flags", f"{kind} round trip: flags differ: { {x: (d1[x], d2[x]) for x in d1 if d1[x] != d2[x]} }"))
+        if r["seq"].device != ctx.sut.device:
+            v.append(("C04/roundtrip-device", f"{kind} round trip: restored device differs from the original"))
+        want = tuple((str(q), c) for q, c in _reg_key_from_world(ctx))
+        got = tuple((str(q), c) for q, c in _reg_key(r["seq"]))
+        if want != got:
+            v.append(("C04/roundtrip-register", f"{kind} round trip: restored register differs: {got} vs {want}"))
+        if kind == "abstract" and self.n_valid < 3:
+            self.n_valid += 1
+            from pulser.json.abstract_repr.validation import validate_abstract_repr
+
+            try:
+                validate_abstract_repr(r["doc"], "sequence")
+                ctx.probe("schema_validated")
+            except Exception as e:  # noqa: BLE001
+                v.append(("C04/schema-invalid", f"abstract representation is not valid under the published schema: {type(e).__name__}: {str(e)[:160]}"))
+        ctx.probe("roundtrip_separate_object")
+        if any(not isinstance(q, str) for q in ctx.qids):
+            ctx.probe("roundtrip_integer_ids")
+        if sum(1 for c in pre.calls if len(c[1]) > 2) >= 1 and len(pre.calls) >= 5:
+            ctx.notes["rich_restart"] = True
+        return v
+
     def step(self, ctx, i, op, pre, out, post, tag):
         v = []
         k = op["op"]
+        if k == "obs_roundtrip":
+            return self.roundtrip(ctx, op, pre, out, post)
         if k not in ("restart_abstract", "restart_legacy"):
             return v
         dev = ctx.world["device"]
@@ -84,4 +147,4 @@ def _reg_key_from_world(ctx):
 
 
 def nontrivial(ctx, st) -> bool:
-    return bool(ctx.notes.get("rich_restart")) and (ctx.stats.get("probe/restart_abstract", 0) + ctx.stats.get("probe/restart_legacy", 0)) >= 1
+    return bool(ctx.notes.get("rich_restart")) and (ctx.stats.get("probe/restart_abstract", 0) + ctx.stats.get("probe/restart_legacy", 0) + ctx.stats.get("probe/roundtrip_separate_object", 0)) >= 1
